@@ -2,7 +2,7 @@
 From V Require Import Common.Base Tie.GoSem Gen.KernelsSlices_gen.
 Require V.DWT.DwtModel.
 Module D := V.DWT.DwtModel.
-From Scr Require Import DwtTieLib DwtTieFwdEvenLoops.
+From V Require Import Tie.DwtTieLib Tie.DwtTieFwdEvenLoops.
 
 Lemma div2_Z : forall n, Z.of_nat (Nat.div2 n) = Z.of_nat n / 2.
 Proof. intros. rewrite Nat.div2_div. rewrite Nat2Z.inj_div. reflexivity. Qed.
